@@ -37,6 +37,13 @@ type In struct {
 	SendOK  bool   `json:"send_ok"`
 	WaitErr bool   `json:"wait_err"`
 	Status  uint64 `json:"status"`
+	// earlier checks through the same wrapper instance, each with its own pair of answers (the
+	// measured check is judged on the answers the chain gives at *its* moment)
+	Prior []Prior `json:"prior,omitempty"`
+}
+type Prior struct {
+	Min Ans `json:"min"`
+	Amt Ans `json:"amt"`
 }
 type Req struct {
 	ToRegistry     bool   `json:"to_registry"`
@@ -70,16 +77,17 @@ func run(in In) (obs Obs) {
 		minName, amtName, stakeName = "minAllowance", "getAllowance", "prepay"
 	}
 	var sentHash = common.HexToHash("0xabc1")
+	curMin, curAmt := in.Min, in.Amt
 	cl := mockevmclient.New(
 		mockevmclient.WithCallFunc(func(_ context.Context, req *evmclient.TxRequest) ([]byte, error) {
 			obs.Calls++
 			var ans Ans
 			switch {
 			case len(req.CallData) >= 4 && string(req.CallData[:4]) == string(a.Methods[minName].ID):
-				ans = in.Min
+				ans = curMin
 				obs.Order = append(obs.Order, "min")
 			case len(req.CallData) >= 4 && string(req.CallData[:4]) == string(a.Methods[amtName].ID):
-				ans = in.Amt
+				ans = curAmt
 				obs.Order = append(obs.Order, "amt")
 			default:
 				obs.Order = append(obs.Order, "other")
@@ -123,6 +131,12 @@ func run(in In) (obs Obs) {
 	addr := common.HexToAddress("0x1234567890123456789012345678901234567890")
 	if in.Which == "bidder" {
 		c := bidderreg.New(regAddr, cl, vh.Quiet())
+		for _, pr := range in.Prior {
+			curMin, curAmt = pr.Min, pr.Amt
+			_ = c.CheckBidderAllowance(context.Background(), addr)
+		}
+		curMin, curAmt = in.Min, in.Amt
+		obs.Calls, obs.Order = 0, []string{}
 		if in.Kind == "check" {
 			obs.Answer = c.CheckBidderAllowance(context.Background(), addr)
 		} else {
@@ -130,6 +144,12 @@ func run(in In) (obs Obs) {
 		}
 	} else {
 		c := providerreg.New(regAddr, cl, vh.Quiet())
+		for _, pr := range in.Prior {
+			curMin, curAmt = pr.Min, pr.Amt
+			_ = c.CheckProviderRegistered(context.Background(), addr)
+		}
+		curMin, curAmt = in.Min, in.Amt
+		obs.Calls, obs.Order = 0, []string{}
 		if in.Kind == "check" {
 			obs.Answer = c.CheckProviderRegistered(context.Background(), addr)
 		} else {
@@ -199,6 +219,16 @@ func main() {
 			}
 			in := In{Tag: "check-random", Kind: "check", Which: which, Min: Ans{Bytes: word(mn)}, Amt: Ans{Bytes: word(am)}}
 			out.Emit(in, run(in))
+		}
+		// the same wrapper instance asked again after the chain's answers changed
+		ok := Prior{Min: Ans{Bytes: word(big.NewInt(10))}, Amt: Ans{Bytes: word(big.NewInt(20))}}
+		no := Prior{Min: Ans{Bytes: word(big.NewInt(10))}, Amt: Ans{Bytes: word(big.NewInt(9))}}
+		for _, prior := range [][]Prior{{ok}, {ok, ok}, {no}, {no, ok}} {
+			for _, now := range []Prior{ok, no, {Min: Ans{Err: true}, Amt: ok.Amt}, {Min: ok.Min, Amt: Ans{Err: true}}, {Min: Ans{Bytes: ""}, Amt: ok.Amt},
+				{Min: Ans{Bytes: word(big.NewInt(21))}, Amt: ok.Amt}, {Min: Ans{Bytes: word(big.NewInt(20))}, Amt: ok.Amt}, {Min: ok.Min, Amt: Ans{Bytes: word(big.NewInt(0))}}} {
+				in := In{Tag: "check-again-after-change", Kind: "check", Which: which, Min: now.Min, Amt: now.Amt, Prior: prior}
+				out.Emit(in, run(in))
+			}
 		}
 		for _, amt := range vals {
 			for _, sendOK := range []bool{true, false} {
